@@ -354,8 +354,10 @@ class McmcSim:
             y1 = d1[par.id].tensor.detach().reshape(-1)
             y2 = d2[par.id].tensor.detach().reshape(-1)
             for i in range(len(y1)):
-                if float(y1[i]) != float(y2[i]):
-                    moved.append((float(y1[i]), float(y2[i])))
+                a, b = float(y1[i]), float(y2[i])
+                # the untouched coordinates go through inv(transform(.)) and may move by rounding only
+                if abs(a - b) > 1e-12 * max(abs(a), abs(b), 1e-300):
+                    moved.append((a, b))
         if len(moved) == 0:
             return 0.0, {}
         if len(moved) > 1:
